@@ -224,6 +224,34 @@ def apply_inner(reply, ops):
             label["wf"] = None
             label["why"] = "junk-after-" + op["name"]
             continue
+        if kind in ("len_form", "tag_form"):
+            # exotic header encodings of one element: indefinite / reserved / oversized length forms,
+            # high-tag-number identifier octets. Nothing is predicted: the datagram must not crash the client.
+            idx = op.get("node", 0) % len(nodes)
+            path, node = nodes[idx]
+            if node.raw is not None:
+                continue
+            body = node.body()
+            tag = node.tag if isinstance(node.tag, bytes) else bytes([node.tag])
+            if kind == "tag_form":
+                node.tag = bytes.fromhex(op["hex"])
+            else:
+                forms = {
+                    "indef": b"\x80",
+                    "indef-eoc": b"\x80",
+                    "ff": b"\xff",
+                    "max32": b"\x84\xff\xff\xff\xff",
+                    "max64": b"\x88" + b"\xff" * 8,
+                    "nine": b"\x89\x01" + b"\x00" * 8,
+                    "wide126": b"\xfe" + len(body).to_bytes(126, "big"),
+                    "wide127": b"\xff" + len(body).to_bytes(127, "big"),
+                    "zero-long": b"\x81\x00",
+                    "top-bit": b"\x88\x80" + len(body).to_bytes(7, "big"),
+                }
+                node.raw = tag + forms[op["form"]] + body + (b"\x00\x00" if op["form"] == "indef-eoc" else b"")
+            label["wf"] = None
+            label["why"] = kind
+            continue
         if kind in ("del", "dup", "swap_tag", "len", "set_content", "trunc_content", "raw"):
             idx = op.get("node", 0) % len(nodes)
             if op.get("name"):
